@@ -10,7 +10,7 @@ import (
 func main() {
 	c := core.New("C02", "model_checking")
 	c.Set("rule", "same lattice exploration as C01; on every edge the emitted blocks are checked: delivered set == ancestors-or-self of the Atropos minus everything delivered by earlier blocks of the epoch, nothing delivered twice, frames consecutive from 1 per epoch, Atropos is a registered root of its frame, last decided frame == number of blocks")
-	cons.ExploreConsensus(c, cons.DefaultConsFamilies(c.Quick(), true), cons.Report{"content": true})
-	cons.ExploreEpochs(c, cons.Report{"content": true})
+	cons.ExploreConsensus(c, cons.DefaultConsFamilies(c.Quick(), true).Light(), cons.Report{"content": true})
+	cons.ExploreEpochs(c, cons.Report{"content": true}, true)
 	c.Finish()
 }
